@@ -56,3 +56,176 @@ pub fn round_trip(_seed: u64) -> usize {
     if Target::try_from(wire).is_ok() { println!("REPRODUCED grpc missing address accepted"); found += 1; }
     found
 }
+
+// ---- the request as a gRPC strategy service receives it (loopback tonic service, hand-written: no server code is generated) ----
+mod wire {
+    use std::sync::{Arc, Mutex};
+    use tonic::codegen::{http, Body, BoxFuture, Context, Poll, Service, StdError};
+
+    #[derive(Clone, PartialEq, prost::Message)]
+    pub struct Address {
+        #[prost(string, tag = "1")]
+        pub hostname: String,
+        #[prost(uint32, tag = "2")]
+        pub port: u32,
+    }
+    #[derive(Clone, PartialEq, prost::Message)]
+    pub struct MetaEntry {
+        #[prost(string, tag = "1")]
+        pub key: String,
+        #[prost(string, tag = "2")]
+        pub value: String,
+    }
+    #[derive(Clone, PartialEq, prost::Message)]
+    pub struct WireTarget {
+        #[prost(string, tag = "1")]
+        pub identifier: String,
+        #[prost(message, optional, tag = "2")]
+        pub address: Option<Address>,
+        #[prost(message, repeated, tag = "3")]
+        pub meta: Vec<MetaEntry>,
+    }
+    #[derive(Clone, PartialEq, prost::Message)]
+    pub struct SelectRequest {
+        #[prost(message, optional, tag = "1")]
+        pub client_address: Option<Address>,
+        #[prost(message, optional, tag = "2")]
+        pub server_address: Option<Address>,
+        #[prost(uint64, tag = "3")]
+        pub protocol: u64,
+        #[prost(string, tag = "4")]
+        pub username: String,
+        #[prost(string, tag = "5")]
+        pub user_id: String,
+        #[prost(message, repeated, tag = "6")]
+        pub targets: Vec<WireTarget>,
+    }
+    #[derive(Clone, PartialEq, prost::Message)]
+    pub struct SelectResponse {
+        #[prost(message, optional, tag = "1")]
+        pub target: Option<WireTarget>,
+    }
+    /// answers with the candidate at index `pick` (none if out of range) and records what it was sent
+    #[derive(Clone, Default)]
+    pub struct MockStrategy {
+        pub seen: Arc<Mutex<Vec<SelectRequest>>>,
+        pub pick: usize,
+    }
+    impl tonic::server::NamedService for MockStrategy {
+        const NAME: &'static str = "scrayosnet.passage.adapter.Strategy";
+    }
+    struct SelectTargetSvc(MockStrategy);
+    impl tonic::server::UnaryService<SelectRequest> for SelectTargetSvc {
+        type Response = SelectResponse;
+        type Future = BoxFuture<tonic::Response<SelectResponse>, tonic::Status>;
+        fn call(&mut self, request: tonic::Request<SelectRequest>) -> Self::Future {
+            let seen = Arc::clone(&self.0.seen);
+            let pick = self.0.pick;
+            Box::pin(async move {
+                let request = request.into_inner();
+                let target = request.targets.get(pick).cloned();
+                seen.lock().unwrap().push(request);
+                Ok(tonic::Response::new(SelectResponse { target }))
+            })
+        }
+    }
+    impl<B> Service<http::Request<B>> for MockStrategy
+    where
+        B: Body + Send + 'static,
+        B::Error: Into<StdError> + Send + 'static,
+    {
+        type Response = http::Response<tonic::body::Body>;
+        type Error = std::convert::Infallible;
+        type Future = BoxFuture<Self::Response, Self::Error>;
+        fn poll_ready(&mut self, _cx: &mut Context<'_>) -> Poll<Result<(), Self::Error>> {
+            Poll::Ready(Ok(()))
+        }
+        fn call(&mut self, req: http::Request<B>) -> Self::Future {
+            let this = self.clone();
+            Box::pin(async move {
+                let codec = tonic_prost::ProstCodec::default();
+                let mut grpc = tonic::server::Grpc::new(codec);
+                Ok(grpc.unary(SelectTargetSvc(this), req).await)
+            })
+        }
+    }
+    pub async fn start(pick: usize) -> Option<(MockStrategy, String)> {
+        let mock = MockStrategy { seen: Default::default(), pick };
+        let incoming = tonic::transport::server::TcpIncoming::bind("127.0.0.1:0".parse().unwrap()).ok()?;
+        let addr = incoming.local_addr().ok()?;
+        let svc = mock.clone();
+        tokio::spawn(async move {
+            let _ = tonic::transport::Server::builder().add_service(svc).serve_with_incoming(incoming).await;
+        });
+        Some((mock, format!("http://{addr}")))
+    }
+}
+
+/// C19 witness: what `GrpcStrategyAdapter::select` puts on the wire must be exactly its arguments (both addresses, protocol, player,
+/// every candidate in order with identifier, address and metadata), and the service's pick must come back as the same target.
+pub fn request_wire(_seed: u64) -> usize {
+    use passage_adapters::strategy::StrategyAdapter;
+    use passage_adapters_grpc::GrpcStrategyAdapter;
+    use std::collections::HashMap;
+    let rt = tokio::runtime::Builder::new_multi_thread().worker_threads(2).enable_all().build().expect("rt");
+    let mut found = 0;
+    let candidates = vec![
+        Target { identifier: "Lobby-1".into(), address: "10.0.0.7:25565".parse().unwrap(), meta: HashMap::from([("Players".to_string(), "12".to_string()), ("".to_string(), "x".to_string())]) },
+        Target { identifier: "lobby-2".into(), address: "[2001:db8::7]:25566".parse().unwrap(), meta: HashMap::new() },
+        Target { identifier: "".into(), address: "[::ffff:192.0.2.1]:1".parse().unwrap(), meta: HashMap::from([("ключ".to_string(), "значение".to_string())]) },
+    ];
+    let hosts = ["play.example.com", "Play.Example.COM.", "", "::1", "xn--mnchen-3ya.example", " spaced ", "UPPER"];
+    let clients = ["198.51.100.9:40000", "[2001:db8::9]:1", "[::ffff:203.0.113.7]:65535"];
+    let users = [("Notch", "069a79f4-44e9-4726-a5be-fca90e38aaf5"), ("", "00000000-0000-0000-0000-000000000000"), ("ÄÖ_x", "ffffffff-ffff-ffff-ffff-ffffffffffff")];
+    let mut cases = 0;
+    for (hi, host) in hosts.iter().enumerate() {
+        for (ci, client) in clients.iter().enumerate() {
+            let (name, id) = users[(hi + ci) % users.len()];
+            let port = [25565u16, 0, 65535][(hi + ci) % 3];
+            let protocol = [769i32, 0, i32::MAX][(hi + 2 * ci) % 3];
+            let pick = (hi + ci) % (candidates.len() + 1);
+            cases += 1;
+            let outcome: Result<(), String> = rt.block_on(async {
+                let (mock, url) = wire::start(pick).await.ok_or("mock service did not start")?;
+                let adapter = GrpcStrategyAdapter::new(url).await.map_err(|e| e.to_string())?;
+                let client_addr: SocketAddr = client.parse().unwrap();
+                let user_id = uuid::Uuid::parse_str(id).unwrap();
+                let picked = adapter.select(&client_addr, (host, port), protocol, (name, &user_id), candidates.clone()).await.map_err(|e| format!("select failed: {e}"))?;
+                let seen = mock.seen.lock().unwrap();
+                let req = seen.first().ok_or("the service received no request")?;
+                let addr = |a: &Option<wire::Address>| a.as_ref().map(|a| (a.hostname.clone(), a.port));
+                if addr(&req.client_address) != Some((client_addr.ip().to_string(), client_addr.port() as u32)) {
+                    return Err(format!("client address arrives as {:?}", addr(&req.client_address)));
+                }
+                if addr(&req.server_address) != Some((host.to_string(), port as u32)) {
+                    return Err(format!("server address ({host:?}, {port}) arrives as {:?}", addr(&req.server_address)));
+                }
+                if req.protocol != protocol as u64 || req.username != name || req.user_id != id {
+                    return Err(format!("protocol / player ({protocol}, {name:?}, {id}) arrive as ({}, {:?}, {})", req.protocol, req.username, req.user_id));
+                }
+                if req.targets.len() != candidates.len() {
+                    return Err(format!("{} candidates sent, {} arrive", candidates.len(), req.targets.len()));
+                }
+                for (w, t) in req.targets.iter().zip(&candidates) {
+                    let meta: HashMap<String, String> = w.meta.iter().map(|e| (e.key.clone(), e.value.clone())).collect();
+                    if w.identifier != t.identifier || addr(&w.address) != Some((t.address.ip().to_string(), t.address.port() as u32)) || meta != t.meta || w.meta.len() != t.meta.len() {
+                        return Err(format!("candidate {:?} arrives as {:?} / {:?} / {:?}", t.identifier, w.identifier, addr(&w.address), meta));
+                    }
+                }
+                match (picked, candidates.get(pick)) {
+                    (None, None) => Ok(()),
+                    (Some(p), Some(t)) if p.identifier == t.identifier && p.address == t.address && p.meta == t.meta => Ok(()),
+                    (p, t) => Err(format!("the service picked {:?}, select returned {:?}", t.map(|t| &t.identifier), p.map(|p| p.identifier))),
+                }
+            });
+            if let Err(e) = outcome {
+                if found < 5 {
+                    println!("REPRODUCED grpc_wire select(client {client}, server ({host:?}, {port}), protocol {protocol}, player {name:?}): {e}");
+                }
+                found += 1;
+            }
+        }
+    }
+    eprintln!("grpc_wire: {cases} requests, {found} mismatches");
+    found
+}
